@@ -61,6 +61,9 @@ def run(ctx):
                 n += 1
                 top = b.path.split('::{')[0]
                 ok = panics.precond_guarded(F, cg, b, bb, argi, 0)
+                if ok is None:
+                    ctx.undecided('C20.R7', '%s hands %s a value that a loader validated on a preamble of generic width decoded from the same bytes: that it is the same number is not decided' % (top, pf.split('::')[-1]))
+                    continue
                 ctx.check(ok, 'C20.R7', '%s:%s-unvalidated' % (top, pf.split('::')[-1]), 'argument validated before the asserting constructor',
                           '%s passes a value that was not validated to %s, which assert!s: a crafted input aborts the process' % (top, pf), term_loc(b, bb))
         if n < 4:
